@@ -173,7 +173,7 @@ def same_len_term(len_term, parts):
         src = lt.attrs["of"]
         return len(src.parts) == len(parts) and all(a is b or a == b for a, b in zip(src.parts, parts))
     if is_sym(lt) and len(parts) == 1 and parts[0][0] == "pay" and not parts[0][1].escapes:
-        pl = parts[0][1].len
+        pl = strip_casts(parts[0][1].len)
         return pl is lt or (is_sym(pl) and is_sym(lt) and pl.key() == lt.key())
     return False
 
